@@ -37,15 +37,27 @@ type Src struct {
 
 // Case is one enumerated configuration case (the `act` of a TLC edge).
 type Case struct {
-	Fam     string `json:"fam"`
-	Comp    string `json:"comp"`
-	Setting string `json:"setting"`
-	Srcs    []Src  `json:"srcs"`
+	Fam     string  `json:"fam"`
+	Comp    string  `json:"comp"`
+	Setting string  `json:"setting"`
+	Srcs    []Src   `json:"srcs"`
+	Ctx     CaseCtx `json:"ctx"`
+}
+
+// CaseCtx: the whole struct-valued option a case belongs to (kind "none": no struct option).
+// kind raw = WithRawSpanLimits(literal), nonraw = WithSpanLimits(literal), logopts = both log
+// record limit options; fields = class of every field (zero / neg / valid) in the order of the
+// specification; env = source of the field-specific variable of EVERY field.
+type CaseCtx struct {
+	Kind   string   `json:"kind"`
+	Fields []string `json:"fields"`
+	Env    Src      `json:"env"`
 }
 
 type edgeTo struct {
 	Allowed []string `json:"allowed"`
 	Ideal   []string `json:"ideal"`
+	Norm    []Src    `json:"norm"`
 }
 
 // Outcome is the projection of what the real code did for one setting.
@@ -136,7 +148,10 @@ func replay(args []string) {
 	resF := fs.String("res", "result.json", "")
 	skip := fs.Int("skip", 0, "skip the first N edges (resume after a crash)")
 	rep := fs.Int("rep", 0, "representative index for concrete values")
+	pairs := fs.String("pairs", "pairs.ndjson", "trace of the cross-setting configurations (validated by the trace spec)")
 	fs.Parse(args)
+	ptw, err := vh.NewTraceWriter(*pairs)
+	vh.Must(err)
 	g, err := vh.LoadEdges(*edges)
 	vh.Must(err)
 	flags := os.O_CREATE | os.O_WRONLY | os.O_APPEND
@@ -157,6 +172,15 @@ func replay(args []string) {
 		vh.Must(json.Unmarshal(e.Act, &c))
 		vh.Must(json.Unmarshal(e.To, &to))
 		res.Evaluations++
+		if c.Fam == "cross" {
+			// metamorphic clause: executed here, judged by Trace_ConfigPrecedence.tla
+			ev := runCross(c.Comp, c.Srcs, to.Norm, conc, res)
+			ev["edge"] = i
+			ptw.Emit(ev)
+			res.Executed++
+			res.Count("cases.cross."+c.Comp, 1)
+			continue
+		}
 		t0 := time.Now()
 		var o Outcome
 		tries := 0
@@ -185,6 +209,9 @@ func replay(args []string) {
 		w.WriteByte('\n')
 		w.Flush() // a crash of the process must not lose the completed cases
 		res.Count("cases."+c.Fam+"."+c.Setting, 1)
+		if c.Ctx.Kind != "" && c.Ctx.Kind != "none" {
+			res.Count("cases.struct."+c.Ctx.Kind, 1)
+		}
 		if len(to.Allowed) > 1 {
 			res.Count("cases_with_choice", 1)
 		}
@@ -202,6 +229,8 @@ func replay(args []string) {
 		}
 	}
 	f.Close()
+	vh.Must(ptw.Close())
+	res.Count("pair_lines", ptw.N)
 	vh.Must(res.Write(*resF))
 }
 
